@@ -17,7 +17,7 @@ reg(Prop("C13", "irrigation strategies honour their contracts",
     "Monitor: IrrDay column against dap, dates, schedule and a wrapper capturing the decision's inputs on real runs"))
 
 reg(Prop("C19", "shallow groundwater behaves consistently",
-    [("gw", 12000, 120000), ("inputs", 1500, 20000)],
+    [("gw", 12000, 120000), ("inputs", 1500, 20000), ("initstate", 400, 6000)],
     trace_mon("C19", 50, 800, gw=lambda r: r.random() < 0.8),
     [R_AX, "modelled: check_groundwater_table.py, capillary_rise.py, groundwater_inflow.py (Water/Groundwater.v); the water-table series (read_groundwater_table) in Init/Inputs.v when claimed"],
     [EXACT, "capillary rise may exceed adjusted field capacity by the 5e-5 rounding of round(fcadj-th,4) (theorem capillary_cap; capillary_in_bounds_refuted shows th can pass th_s by that amount when fcadj = th_s)"],
@@ -37,7 +37,7 @@ reg(Prop("C02", "rain and irrigation are fully partitioned at the surface",
     "ponding, bund-removal day, low-Ksat layers, back-up loop up to the surface; monitor: rows vs the weather record and the irrigation of the same step"))
 
 reg(Prop("C01", "daily soil-water balance closes",
-    [("drainage", 5000, 60000), ("infiltration", 5000, 60000), ("evap", 4000, 60000), ("gw", 5000, 60000), ("roots", 4000, 40000), ("transp", 4000, 60000), ("day", 3000, 40000), ("dayc", 2500, 30000), ("runc", 48, 500)],
+    [("drainage", 5000, 60000), ("infiltration", 5000, 60000), ("evap", 4000, 60000), ("gw", 5000, 60000), ("roots", 4000, 40000), ("transp", 4000, 60000), ("initstate", 400, 6000), ("day", 3000, 40000), ("dayc", 2500, 30000), ("runc", 48, 500)],
     trace_mon("C01", 70, 1200),
     [R_AX, WATER_NOTE],
     [EXACT, "profiles with th_dry < th_wp < th_fc < th_s strictly, tau > 0, Ksat > 0 (wf_prof); water contents within [th_dry, th_s] on entry (C03 invariant)"],
@@ -45,7 +45,7 @@ reg(Prop("C01", "daily soil-water balance closes",
     "(storage before/after each wrapped process vs the flux it returns) and day closure from the tables, 1e-6 mm (+ the capillary-rise allowance), carry-over between days and at season resets"))
 
 reg(Prop("C03", "soil water content and ponding stay within physical limits",
-    [("drainage", 5000, 60000), ("infiltration", 5000, 60000), ("evap", 4000, 60000), ("gw", 5000, 60000), ("roots", 4000, 40000), ("transp", 4000, 60000), ("rootzone", 3000, 30000), ("day", 2000, 30000), ("dayc", 2500, 30000), ("runc", 48, 500)],
+    [("drainage", 5000, 60000), ("infiltration", 5000, 60000), ("evap", 4000, 60000), ("gw", 5000, 60000), ("roots", 4000, 40000), ("transp", 4000, 60000), ("rootzone", 3000, 30000), ("initstate", 400, 6000), ("day", 2000, 30000), ("dayc", 2500, 30000), ("runc", 48, 500)],
     trace_mon("C03", 70, 1200, bunds=lambda r: r.random() < 0.3, gw=lambda r: r.random() < 0.35),
     [R_AX, WATER_NOTE],
     [EXACT, "wf_prof; capillary rise may overshoot adjusted field capacity by 5e-5 (round(.,4)), hence th_s by the same amount only when fcadj = th_s (capillary_in_bounds_refuted; the monitor measures whether real runs reach it)"],
@@ -191,7 +191,11 @@ reg(Prop("C12", "configured parameters and weather stay read-only while stepping
 
 reg(Prop("C11", "inputs are not consumed by a run",
     [("inputs", 2500, 30000), ("calendar", 2500, 30000), ("soilinit", 800, 8000)],
-    worker_mon("C11", monitors2.worker_C11, 40, 600, timeout=900, method=lambda r: r.choice([0, 1, 2, 3, 3, 4, 5])),
+    worker_mon("C11", monitors2.worker_C11, 40, 600, timeout=900, method=lambda r: r.choice([0, 1, 2, 3, 3, 4, 5]),
+               # a quarter of the configurations: a fallow lead-in before the first planting date with a crop whose aeration /
+               # minimum-rooting parameters differ from the filler crop's (the steps before planting write Aer and Zmin of the filler crop)
+               start_mode=lambda r: "before" if r.random() < 0.4 else r.choice(["at", "at", "before", "after"]),
+               crop=lambda r: r.choice(["Barley", "Quinoa", "Tef", "AlfalfaGDD", "PaddyRice", "localpaddy"]) if r.random() < 0.3 else r.choice(sim.CROPS)),
     ["all theorems 'Closed under the global context'", GEN_NOTE,
      "modelled write-backs: clipped weather table (Init/Inputs.v clip/bind), CO2.current_concentration/co2_data_processed, crop.harvest_date (Init/Calendar.v); the deepened soil.profile DataFrame and the crop-calendar attributes written on the user's Crop are covered by the store-site whitelist and by the monitor only",
      "pandas object internals are trusted"],
